@@ -30,6 +30,7 @@ PLAN = {
     "C02e": "C02", "C03e": "C03", "C05e": "C05", "C12e": "C12", "C13e": "C13", "C17e": "C17", "C19e": "C19", "C20e": "C20",
     "C04e": "C04", "C09e": "C09 C07", "C07f": "C07", "C14f": "C14", "C16f": "C16", "C10f": "C10", "C08f": "C08", "C06f": "C06",
     "C13f": "C13 C10", "C15f": "C15", "C17f": "C17", "C18f": "C18", "C19f": "C19", "C20f": "C20",
+    "C01g": "C01", "C06g": "C06 C02", "C08g": "C08", "C11g": "C11", "C14g": "C14", "C16g": "C16 C10",
     "C01f": "C01", "C11f": "C11 C08", "C02f": "C02 C04", "C03f": "C03 C01", "C04f": "C04", "C05f": "C05", "C07g": "C07 C14", "C09f": "C09 C08", "C12f": "C12",
     "C01e": "C01", "C06e": "C06", "C07e": "C07 C11", "C10e": "C10", "C14e": "C14", "C16e": "C16",
 }
